@@ -388,6 +388,10 @@ def _warn(ex, e, args, kwargs, p):
     return [(PyC(None), p)]
 
 
+for _n in ("match", "fullmatch", "search", "findall", "compile", "split", "finditer"):
+    FUNCS["re." + _n] = ((lambda name: (lambda ex, e, args, kwargs, p: [(app("re_" + name, *[asV(a) for a in args]), p)]))(_n), "A-cpython")
+
+
 @lib("re.escape", "A-cpython")
 def _reescape(ex, e, args, kwargs, p):
     return [(app("re_escape", asV(args[0])), p)]
